@@ -5,6 +5,7 @@ import Driver.RateLimiter
 import Driver.Stats
 import Driver.Pause
 import Driver.Url
+import Driver.Queue
 /-! zdriver: `zdriver <domain> [--base]` reads one JSON object per line, prints one result line each. -/
 open Lean
 
@@ -20,6 +21,7 @@ def stateless (f : Bool → Json → Except String String) : Domain :=
 def domains : List (String × Domain) := [
   ("disk", stateless Driver.Disk.step),
   ("pause", { σ := Zeno.Model.Pause.S, init := {}, step := Driver.Pause.step }),
+  ("queue", { σ := List Zeno.Model.Queue.Row, init := [], step := Driver.Queue.step }),
   ("url", stateless Driver.Url.step),
   ("stats", stateless Driver.Stats.step),
   ("diskwatch", stateless Driver.Disk.stepWatch),
